@@ -212,6 +212,7 @@ type AppOp struct {
 	CB       bool   `json:"cb,omitempty"`
 	UseWrite bool   `json:"write,omitempty"`
 	Chars    string `json:"chars,omitempty"` // padding character class (payloadForC); text messages only
+	SlowMs   int    `json:"slowMs,omitempty"` // binary messages only: the data is handed over as an io.Reader whose first Read takes that long
 }
 
 // ReentSpec makes a listener call back into the session (C18).
